@@ -445,6 +445,11 @@ def gen_raw(r, seed):
     dom = [list(x) for x in dom]
     nops = r.choice([3, 6, 12, 25, 60])
     ops = []
+    if r.random() < 0.12:
+        # one long chain down one side of the box: depth up to 80 (index arithmetic, float resolution)
+        side = r.choice([0.0, 1.0, 1.0])
+        ops = [["chain", side] for _ in range(r.choice([30, 50, 80]))]
+        nops = 0
     for _ in range(nops):
         k = r.random()
         if k < 0.15:
